@@ -10,7 +10,8 @@ import (
 	"fmt"
 	"math"
 	"reflect"
-	"strings"
+	"unicode"
+	"unicode/utf8"
 
 	"github.com/ipfs/go-cid"
 	"github.com/ipld/go-ipld-prime/datamodel"
@@ -50,7 +51,10 @@ var (
 	tNode    = reflect.TypeOf((*datamodel.Node)(nil)).Elem()
 )
 
-func title(s string) string { return strings.ToUpper(s[:1]) + s[1:] }
+func title(s string) string {
+	r, n := utf8.DecodeRuneInString(s)
+	return string(unicode.ToUpper(r)) + s[n:]
+}
 
 // Binder holds the Go type chosen for every schema type.
 type Binder struct {
@@ -59,7 +63,9 @@ type Binder struct {
 	types map[string]reflect.Type
 }
 
-func New(s *tschema.Schema, ch Choices) *Binder { return &Binder{S: s, Ch: ch, types: map[string]reflect.Type{}} }
+func New(s *tschema.Schema, ch Choices) *Binder {
+	return &Binder{S: s, Ch: ch, types: map[string]reflect.Type{}}
+}
 
 // GoType returns the Go type bound to the schema type (use is the field / position that refers
 // to it, so that the same built-in can be bound differently in different places).
